@@ -3,6 +3,7 @@
 # Confirms: (1) crate tests pass with patch, (2) demo fails with patch, (3) demo passes without patch.
 wt="$1"; out="$2"; crate="$3"; shift 3
 export CARGO_BUILD_JOBS=6
+export CARGO_INCREMENTAL=0
 cd "$wt" || exit 2
 git checkout -q -- . ; git clean -fdq -e OUT -e target
 demo_files=$(grep '^+++ b/' "$out/demo.diff" | sed 's#^+++ b/##')
